@@ -1,4 +1,5 @@
 import Hive.Proofs.BatchWriterProgress
+import Hive.Proofs.BatchWriterErr
 import Hive.Gen.C08_Skel
 /-!
 # C08 — BatchedWriter never loses or half-writes an enqueued object
@@ -342,6 +343,84 @@ example : (flushStopCfg 1 3).1.wpc = .exited ∧ (∀ t ∈ (flushStopCfg 1 3).2
     okFinal (trace (flushStopCfg 1 3)) = true ∧
     trace (flushStopCfg 1 3) = [.enqCall 0 0, .hook 0, .schedNew 0, .enqRet 0 0, .reset 0, .write 0 1, .flush,
       .stopCall 0, .commit, .done 0, .stopRet 0] := by decide
+
+/-! ### Store errors (`sysE`): `Batched()` / `Commit()` may fail at any call; the writer goroutine panics, the process dies
+
+The statement does not mention store errors.  What the code does (`panic(err)` in the writer goroutine, which nobody
+can recover) is modelled as the death of the whole system: `Model/BatchWriterErr.lean`.  Proved: everything the
+statement says about *order* holds up to the crash — in particular no `BatchWriteDone` for an object of a batch whose
+`Commit` failed, and the store holds nothing of that batch — and the crash is final (no call returns afterwards).
+What can not hold is the third clause: a `StopBatchWriter` that was waiting never returns
+(`C08_store_error_stop_never_returns_witness`); the harness checks that the real process indeed dies there
+(scenario `store-fail`, child process) instead of, say, calling the Dones or returning from Stop. -/
+
+/-- **Store errors: the trace predicate holds up to the crash**, for every failing call, every queue / batch size,
+thread pool and interleaving: no Done before a successful commit, no BatchWrite without scheduling, no Stop returned
+early, the store holds the last *successfully committed* BatchWrite of every object. -/
+theorem C08_store_error_safety {q b : Nat} {c0 : Cfg St Thread} {c : Cfg StE Thread} (h0 : Init q b c0)
+    (hr : Reach sysE (liftCfg c0) c) :
+    ok (trace (dropCfg c)) = true ∧
+    ∀ o, (Mon.run (trace (dropCfg c))).dn o ≤ (Mon.run (trace (dropCfg c))).com o ∧
+      (Mon.run (trace (dropCfg c))).com o ≤ (Mon.run (trace (dropCfg c))).wr o ∧
+      c.1.1.store o = (Mon.run (trace (dropCfg c))).lastCom o := by
+  have hs := sysE_sim hr
+  refine ⟨C08_ok h0 hs, fun o => ?_⟩
+  have h1 := (C08_written_before_done h0 hs).2 o
+  exact ⟨h1.1, h1.2, (C08_store_is_last_write h0 hs).2.1 o⟩
+
+/-- **The crash is final**: once a store call has failed no thread moves any more — the trace is frozen: no further
+`BatchWriteDone`, no commit, no return of any `Enqueue` / `StopBatchWriter` call. -/
+theorem C08_store_error_crash_is_final {c c' : Cfg StE Thread} (hd : c.1.2 = true) (hr : Reach sysE c c') :
+    c' = c ∧ Stuck sysE c' := by
+  have := reach_of_dead hd hr
+  subst this
+  exact ⟨rfl, stuck_of_dead hd⟩
+
+/-- **A batch whose `Commit` failed**: each of its objects has been passed to `BatchWrite` but that write is neither
+committed nor — ever, whatever follows — done, and the store still holds what the last successful commit left. -/
+theorem C08_failed_commit_batch_never_done {q b : Nat} {c0 : Cfg St Thread} {c c' : Cfg StE Thread} (h0 : Init q b c0)
+    (hr : Reach sysE (liftCfg c0) c) (hd : c.1.2 = true) (hr' : Reach sysE c c') :
+    ∀ o ∈ c.1.1.batch,
+      (Mon.run (trace (dropCfg c'))).dn o ≤ (Mon.run (trace (dropCfg c'))).com o ∧
+      (Mon.run (trace (dropCfg c'))).com o < (Mon.run (trace (dropCfg c'))).wr o ∧
+      c'.1.1.store o = (Mon.run (trace (dropCfg c'))).lastCom o := by
+  have hcc := (C08_store_error_crash_is_final hd hr').1
+  rw [hcc]
+  intro o ho
+  have hs := sysE_sim hr
+  have hi := inv_reach h0 hs
+  have h1 := (C08_store_error_safety h0 hr).2 o
+  refine ⟨h1.1, ?_, h1.2.2⟩
+  have h2 := (hi.wo o).com_wr
+  have h3 : 0 < c.1.1.batch.count o := List.count_pos_iff.mpr ho
+  rw [trace, ← mon_eq_run h0 hs]
+  simp only [dropCfg] at h2 ⊢
+  omega
+
+/-- the object is inside a batch of size 1 whose `Commit` fails while a `StopBatchWriter` waits -/
+def storeErrCfg : Cfg StE Thread :=
+  let c := runSched sysE (liftCfg (initSt 1 1, witnessThreads 1 (fun _ => 0))) (rep 0 15 ++ rep 2 6 ++ rep 1 4)
+  runSched sysE c [(2, failChoice c.1.1)]
+
+set_option maxRecDepth 8000 in
+/-- **With a failing store the third clause cannot hold**: a reachable configuration in which `Commit` has failed —
+the object is written, not committed, not done — and the Stop caller inside `writeWg.Wait()` never returns: nothing
+moves any more.  (On the real code: the process has terminated with the panic of the writer goroutine.) -/
+theorem C08_store_error_stop_never_returns_witness :
+    Reach sysE (liftCfg (initSt 1 1, witnessThreads 1 (fun _ => 0))) storeErrCfg ∧
+    storeErrCfg.1.2 = true ∧ storeCall storeErrCfg.1.1 = some "Commit" ∧ storeErrCfg.1.1.batch = [0] ∧
+    storeErrCfg.2[1]? = some (.stopper 0 .wait) ∧
+    Deadlock sysE (fun t => t.finished = true) storeErrCfg ∧
+    trace (dropCfg storeErrCfg) = [.enqCall 0 0, .hook 0, .schedNew 0, .enqRet 0 0, .reset 0, .write 0 1, .stopCall 0] :=
+  ⟨Reach.trans (runSched_reach _ _ _) (runSched_reach _ _ _), by decide, by decide, by decide, by decide,
+    ⟨stuck_of_dead (by decide), .stopper 0 .wait, by decide, by decide⟩, by decide⟩
+
+-- the hypotheses of the three theorems above are satisfiable: `storeErrCfg`, and crashes at the other store calls
+set_option maxRecDepth 8000 in
+example : (storeFailCfg 2 5 "Commit" 2).1.2 = true ∧ (storeFailCfg 2 5 "Commit" 2).1.1.batch = [2, 3] ∧
+    (storeFailCfg 2 5 "Batched" 1).1.2 = true ∧ (storeFailCfg 2 5 "Batched" 1).1.1.wpc = .loopRun ∧
+    (storeFailCfg 2 5 "Batched" 2).1.2 = true ∧ (storeFailCfg 2 5 "Batched" 2).1.1.again = true ∧
+    (storeFailCfg 2 5 "Commit" 4).1.2 = false ∧ (storeFailCfg 2 5 "Commit" 4).1.1.wpc = .exited := by decide
 
 /-! ### Queue size 0 (`WithQueueSize(0)`: the queue is an unbuffered channel)
 
